@@ -330,12 +330,151 @@ Proof.
   rewrite Hoe, Hce, Hoi, Hol, Hrcok.
   rewrite (yield_unfold _ _ _ _ _ _ _ _ _ _ Htab).
   exists st', nxt, encs, prev. split; [|split; [|split]].
-  - unfold expected_record_of, expected_record. cbn [call_prepared c]. Show. rewrite <- Eind, Hprep. cbn [fst snd].
-    cbn [call_dots call_opts call_payload call_name]. rewrite <- Eind, Htarget, Hres. reflexivity.
+  - unfold expected_record_of, expected_record. cbn [call_prepared c]. rewrite <- Eind, Hprep. cbn [fst snd].
+    unfold c. cbn [call_dots call_opts call_payload call_name]. rewrite <- Eind. fold c. rewrite Htarget, Hres. reflexivity.
   - apply Hsim'. rewrite Hfnl'. reflexivity.
   - exact Hrem'.
   - rewrite Hline'. unfold st1 at 1. cbn [after_line st_linenum].
     unfold call_nlines. cbn [call_prepared c]. rewrite <- Eind, Hprep. cbn [fst snd].
     unfold text_nlines. rewrite Heff. cbn [enc_bytes]. rewrite map_n_byte_ascii_text, Hres. cbn [snd].
+    rewrite Hy. unfold nlines_of. rewrite map_n_byte_ascii_text, Hnl, Hsplit. lia.
+Qed.
+
+(* ------------------------------------------------------------------------------------------------ *)
+(* 7. write_meta                                                                                       *)
+
+(* the metadata content round trip for every modelled codec: unconditional for the single-byte-newline codecs,
+   under [guess_agrees] for the others *)
+Lemma meta_rt : forall eb canon cd, lookup_codec eb = LOk canon cd ->
+  forall (s : wstate) (t : text) (x : bytes),
+    t <> [] -> py_encode t eb = Ok x -> find N.eqb (nl_text GenText.le_unix) t <> None ->
+    exists body le nl nlb lines,
+      guess_line_endings_text t = (le, nl) /\
+      get_newline_for_type le (Some eb) = Ok nlb /\
+      py_encode (final_text nl t) eb = Ok body /\
+      split_lines body nlb true = Ok lines /\
+      prepare_content s (CText t) WNone WNone (WStr (ascii_text eb)) true = Ok (body, WStr (ascii_text le)) /\
+      forall st rest, (aligned_canon canon \/ guess_agrees eb body nlb) ->
+        remaining (st_stream st) = body ++ rest -> (Z.of_nat (length body) <= sys_maxsize)%Z ->
+        exists st',
+          read_content st (Z.of_nat (length body)) (Some (VStr eb)) None None false
+            = COk (PText (final_text nl t)) st' /\
+          remaining (st_stream st') = rest /\
+          st_linenum st' = (st_linenum st + Z.of_nat (length lines))%Z /\
+          st_fnl st' = st_fnl st.
+Proof.
+  intros eb canon cd Hlk s t x Ht Hx Hlf.
+  destruct (spelling_facts _ _ _ Hlk) as (_ & He & _ & _).
+  destruct (codec_ok_modelled _ _ _ Hlk) as [c [bom [enc0 laws]]].
+  destruct (encodable_of_py_encode eb c bom enc0 laws t x Hx) as [b [Hb _]].
+  destruct (content_round_trip_guess eb c bom enc0 laws s (ascii_text eb) t b WNone WNone He Ht Hb la_none ia_none)
+    as [body [le [nl [nlb [b' [lines [H1 [H2 [H3 [H4 [H5 [H6 [H7 H8]]]]]]]]]]]]].
+  cbn [resolve_le] in H1. cbn [indent_body] in H6. subst body.
+  destruct (resolve_le_ok WNone t le nl la_none H1) as [Hv [Hassoc _]].
+  destruct (newline_bytes eb c bom enc0 laws le Hv) as [nlb' [N1 [_ [N3 _]]]].
+  destruct (le_values_facts le Hv) as [_ [_ [Hassoc' _]]].
+  assert (nl = nl_text le) by congruence. subst nl. rewrite H3 in N1. injection N1 as <-.
+  pose proof (py_encode_laws eb c bom enc0 laws _ _ H4) as Hpy.
+  exists (bom ++ b'), le, (nl_text le), nlb, lines.
+  split; [exact H1|]. split; [exact N3|]. split; [exact Hpy|]. split; [exact H5|]. split; [exact H7|].
+  intros st rest [Hal|Hg] Hrem Hsz.
+  - destruct (content_round_trip_meta eb (codec_ok_aligned_modelled _ _ _ Hlk Hal) s (ascii_text eb) t x He Ht Hx Hlf)
+      as (body2 & le2 & nl2 & nlb2 & lines2 & G1 & G2 & G3 & G4 & _ & G6).
+    rewrite H1 in G1. injection G1 as <- <-. rewrite N3 in G2. injection G2 as <-.
+    rewrite Hpy in G3. injection G3 as <-. rewrite H5 in G4. injection G4 as <-.
+    exact (G6 st rest Hrem Hsz).
+  - exact (H8 st rest Hg Hrem Hsz).
+Qed.
+
+Lemma json_obj_text : forall kv d, kv <> [] -> json_dump (JObj kv) = Ok d ->
+  (exists r, ascii_text d = 123%N :: 10%N :: r) /\ (exists q, ascii_text d = q ++ [125%N]).
+Proof.
+  intros kv d Hkv Ed. unfold json_dump in Ed. rewrite dump_obj in Ed by exact Hkv.
+  destruct (dump_members 0 kv); [|discriminate Ed]. apply Ok_inj in Ed. subst d. split.
+  - eexists. unfold ascii_text. rewrite !map_app. reflexivity.
+  - eexists. unfold ascii_text. rewrite !app_assoc. rewrite map_app. reflexivity.
+Qed.
+
+Lemma find_lf_json : forall r, find N.eqb (nl_text GenText.le_unix) (123%N :: 10%N :: r) <> None.
+Proof. intros r. change (nl_text GenText.le_unix) with [10%N]. cbn. discriminate. Qed.
+
+Lemma final_text_json : forall t q, t = q ++ [125%N] -> final_text (nl_text GenText.le_unix) t = t ++ [10%N].
+Proof.
+  intros t q E. unfold final_text. change (nl_text GenText.le_unix) with [10%N].
+  destruct (suffixb N.eqb [10%N] t) eqn:Es; [|reflexivity]. exfalso.
+  apply (TextFacts.suffixb_spec N.eqb N_eqb_spec) in Es. destruct Es as [q' Es]. rewrite E in Es.
+  apply app_inj_tail in Es. destruct Es as [_ Es]. discriminate Es.
+Qed.
+
+Lemma sim_step_meta : forall orc chunk s s' st valid encs prev kv enc fmt,
+  let c := WriteMeta (WDict (JObj kv)) enc fmt in
+  Sim s st valid encs prev -> enc_ok enc -> meta_guess_b s c = true -> oracle_ok_call orc c ->
+  do_call c s = (s', Ok tt) -> 0 < chunk ->
+  (Z.of_nat (length (w_out s')) <= sys_maxsize)%Z ->
+  step_ok orc chunk s st valid encs prev c s'.
+Proof.
+  intros orc chunk s s' st valid encs prev kv enc fmt c HS Henc Hguess Horc Hcall Hchunk Hsize.
+  destruct (meta_call_inv _ _ _ _ _ Hcall) as (j & d & Ej & Htruthy & Hfmt & Hdump & Hncs).
+  injection Ej as <-.
+  assert (Hkv : kv <> []) by (intros ->; discriminate Htruthy).
+  pose proof (target_content s c I) as Htarget. cbn [call_name c] in Htarget.
+  assert (Hname : In (B "meta") WriterFacts.content_names) by (cbn; auto).
+  assert (Hfj : meta_fmt fmt = WStr (ascii_text (B "json"))).
+  { apply in_strset_true in Hfmt. destruct Hfmt as (x & Hx & ->). destruct Hx as [<-|[]]. reflexivity. }
+  assert (Hfg : good_value (meta_fmt fmt) /\ exact_value (meta_fmt fmt)).
+  { rewrite Hfj. assert (Hin : In (B "json") choice_values) by (apply choice_sub_meta_formats; left; reflexivity).
+    destruct (choice_exact _ Hin). auto. }
+  destruct Hfg as [Hfg Hfx].
+  set (t := ascii_text d) in *.
+  destruct (sim_content_header chunk s st valid encs prev c s' (B "meta") (CText t) WNone enc WNone false true (B "format") (meta_fmt fmt)
+              HS Hcall Htarget Hncs Hname Henc GV_none I (key_spec "format" eq_refl) Hfg Hfx Hchunk Hsize)
+    as (body & le_out & r & nxt & Hprep & Hout & Hbody & Htab & Hsim' & Hget & Hread).
+  destruct (text_prepared _ _ _ _ _ _ _ _ _ _ _ HS Henc Hprep)
+    as (eb & canon & cd & inh & Hlk & Heff & Htne & (x & Hpy) & Htop & Hce & Hprep1).
+  destruct (json_obj_text kv d Hkv Hdump) as [(r0 & Hr0) (q & Hq)]. fold t in Hr0, Hq.
+  assert (Hlf : find N.eqb (nl_text GenText.le_unix) t <> None) by (rewrite Hr0; apply find_lf_json).
+  destruct (meta_rt eb canon cd Hlk s t x Htne Hpy Hlf)
+    as (body2 & le' & nl & nlb & lines & Hgt & Hnl & Hy & Hsplit & Hprep2 & Hrc).
+  rewrite Hprep1 in Hprep2. apply Ok_pair_inj in Hprep2. destruct Hprep2 as [<- ->].
+  rewrite Hr0, guess_json_text in Hgt. injection Hgt as <- <-.
+  destruct (sim_content_id _ _ _ _ _ _ _ _ HS Hcall Htarget Hname) as (Hic & _ & Him & _).
+  destruct (Him eq_refl) as [Hnp Hm].
+  (* the guess *)
+  assert (Hga : aligned_canon canon \/ guess_agrees eb body nlb).
+  { unfold meta_guess_b, c in Hguess. rewrite Heff in Hguess. cbn [enc_bytes] in Hguess.
+    rewrite map_n_byte_ascii_text in Hguess. apply orb_true_iff in Hguess. destruct Hguess as [Ha|Hg].
+    - left. unfold aligned_b in Ha. rewrite Hlk in Ha. apply (HeaderFacts.mem_In byte_eqb HeaderFacts.byte_eqb_spec). exact Ha.
+    - right. rewrite Hnl in Hg. cbn [call_prepared] in Hg. rewrite Hdump in Hg. fold t in Hg. rewrite Hprep in Hg. cbn [fst] in Hg.
+      destruct (guess_line_endings_bytes body (Some eb)) as [[le2 nlb2]|] eqn:Eg; [|discriminate Hg].
+      apply TextFacts.beq_eq in Hg. subst nlb2. exists le2. exact Eg. }
+  exists ((("#"%byte :: r) ++ [x0a]) ++ body). split; [exact Hout|].
+  intros rest Hrem. destruct (Hread rest Hrem) as [Hh Hrem1].
+  set (st1 := after_line st (length ("#"%byte :: r))) in *.
+  destruct (Hrc st1 rest Hga Hrem1 Hbody) as (st' & Hrcok & Hrem' & Hline' & Hfnl').
+  set (opts := expected_opts (content_opts body (WStr (ascii_text GenText.le_unix)) enc WNone false [(B "format", meta_fmt fmt)])) in *.
+  assert (Hlen : opt_get "length" opts = Some (VInt (Z.of_nat (length body)))).
+  { unfold opt_get, opts. rewrite Hget, content_opts_get. cbeq. reflexivity. }
+  assert (Hoe : opt_get "encoding" opts = rd_enc enc).
+  { unfold opt_get, opts. rewrite Hget, content_opts_get. cbeq. apply enc_ok_read_back. exact Henc. }
+  assert (Hol : opt_get "line_endings" opts = None).
+  { unfold opt_get, opts. rewrite Hget, content_opts_get. cbeq. reflexivity. }
+  assert (Hof : opt_get "format" opts = Some (VStr (B "json"))).
+  { unfold opt_get, opts. rewrite Hget, content_opts_get. cbeq. rewrite Hfj.
+    apply choice_values_spec. apply choice_sub_meta_formats. left. reflexivity. }
+  pose proof (Encodings.reader_meta_encoding orc chunk st valid encs prev _ _ _ _ _ _ inh _ Hh Hic Hnp Hm Htop Hlen) as Hstep.
+  rewrite Hstep; [|apply Z.ltb_ge; lia | rewrite Hof; vm_compute; reflexivity].
+  rewrite Hoe, Hce, Hol, Hrcok. cbv zeta.
+  rewrite (final_text_json t q Hq).
+  cbn [oracle_ok_call c] in Horc. specialize (Horc d Hdump). fold t in Horc. rewrite Horc.
+  rewrite (yield_unfold _ _ _ _ _ _ _ _ _ _ Htab).
+  exists st', nxt, encs, prev. split; [|split; [|split]].
+  - unfold expected_record_of, expected_record. cbn [call_prepared c]. rewrite Hdump. fold t. rewrite Hprep. cbn [fst snd].
+    unfold c. cbn [call_dots call_opts call_payload call_name]. fold c. rewrite Htarget. reflexivity.
+  - apply Hsim'. rewrite Hfnl'. reflexivity.
+  - exact Hrem'.
+  - rewrite Hline'. unfold st1 at 1. cbn [after_line st_linenum].
+    unfold call_nlines. cbn [call_prepared c]. rewrite Hdump. fold t. rewrite Hprep. cbn [fst snd].
+    unfold text_nlines. rewrite Heff. cbn [enc_bytes resolve_le]. rewrite map_n_byte_ascii_text.
+    rewrite Hr0 at 1. rewrite guess_json_text. cbn [snd].
     rewrite Hy. unfold nlines_of. rewrite map_n_byte_ascii_text, Hnl, Hsplit. lia.
 Qed.
